@@ -8,7 +8,7 @@ use serde::{Deserialize, Serialize};
 use std::cell::RefCell;
 use std::io::Read;
 use std::rc::Rc;
-use vcore::{CaseResult, CaseStats, Violation};
+use vcore::{CaseResult, CaseStats, Violation, vensure};
 
 #[derive(Clone, Copy, Debug, Hash, Serialize, Deserialize, PartialEq, Eq)]
 pub enum Ty {
@@ -373,6 +373,47 @@ fn show(b: &str) -> String {
     } else {
         s
     }
+}
+
+/// Very many refills on one reader: `reps` repetitions of "12 -7 word\n 3\r\n", delivered `chunk` bytes per read call (more than
+/// 65536 read calls for reps >= 6000 at chunk 1 - counters that wrap at 16 bits).
+#[derive(Clone, Debug, Hash, Serialize, Deserialize, PartialEq)]
+pub struct Many {
+    pub reps: u32,
+    pub chunk: u8,
+}
+
+pub fn run_many(m: &Many) -> CaseResult {
+    let unit = "12 -7 word\n 3\r\n";
+    let reps = m.reps.min(40_000) as usize;
+    let input = unit.repeat(reps);
+    let chunk = m.chunk.max(1) as usize;
+    let cuts: Vec<u32> = (1..input.len() / chunk + 1).map(|k| (k * chunk) as u32).collect();
+    let mut script = Vec::with_capacity(reps * 4 + 1);
+    for k in 0..reps {
+        script.push(R::Int(if k % 2 == 0 { Ty::U8 } else { Ty::I64 }));
+        script.push(R::Tuple(2));
+        script.push(R::Int(Ty::Usize));
+        if k % 3 == 0 {
+            script.push(R::Line);
+        }
+    }
+    script.push(R::IsEof);
+    let mut st = CaseStats::default();
+    let want = Parser::new(input.as_bytes()).run(&script).expect("the constructed script is valid");
+    let (got, stats) = run_library(input.as_bytes(), &script, &cuts, &[]);
+    if let Some(k) = got.iter().zip(want.iter()).position(|(g, w)| g != w) {
+        return Err(Violation::new(
+            format!("parser/{}", kind_of(&script[k])),
+            format!("{:?}: script step {} ({:?}), after {} read calls on the same reader, returned {}, the bytes say {}", m, k, script[k], stats.borrow().calls, got[k], want[k]),
+        ));
+    }
+    vensure!(got.len() == want.len(), "parser/length", "{:?}: {} results for {} script steps", m, got.len(), want.len());
+    st.nontrivial = stats.borrow().calls > 65_536;
+    if st.nontrivial {
+        st.label("more-than-65536-read-calls-on-one-reader");
+    }
+    Ok(st)
 }
 
 pub fn run_case(c: &Case) -> CaseResult {
